@@ -7,8 +7,8 @@ use proc_macro2::{Ident, TokenStream};
 use quote::{format_ident, quote};
 use syn::{
     parse_quote, spanned::Spanned, ConstParam, Expr, GenericParam, Generics, Item, LifetimeParam,
-    Path, Result, Type, TypeArray, TypeParam, TypeParen, TypePath, TypeReference, TypeSlice,
-    TypeTuple, WhereClause, WherePredicate,
+    Path, Result, Type, TypeArray, TypeGroup, TypeParam, TypeParen, TypePath, TypeReference,
+    TypeSlice, TypeTuple, WhereClause, WherePredicate,
 };
 
 use crate::{deps::Dependencies, utils::format_generics};
@@ -418,6 +418,8 @@ fn used_type_params<'ty, 'out>(
 
     match ty {
         Type::Array(TypeArray { elem, .. })
+        // a type that reached the item through a `$t:ty` fragment of a `macro_rules!` macro
+        | Type::Group(TypeGroup { elem, .. })
         | Type::Paren(TypeParen { elem, .. })
         | Type::Reference(TypeReference { elem, .. })
         | Type::Slice(TypeSlice { elem, .. }) => used_type_params(out, elem, is_type_param),
